@@ -258,6 +258,12 @@ func sizeFlow() world.J {
 			world.J{"uuid": world.ActUUID(f, 1, 3), "type": "set_run_result", "name": "Copy", "value": "@input.text", "category": "Cat"},
 			world.J{"uuid": world.ActUUID(f, 1, 4), "type": "send_msg", "text": "x@(input.text)y@contact.name z@fields.gender r@results.copy.value"},
 			world.J{"uuid": world.ActUUID(f, 1, 6), "type": "send_broadcast", "text": "@input.text", "groups": []any{world.J{"uuid": world.GroupA, "name": "Group A"}}},
+			// literal texts without any expression, longer than every small limit
+			world.J{"uuid": world.ActUUID(f, 1, 7), "type": "send_msg", "text": "literal text of forty-one characters long", "quick_replies": []any{strings.Repeat("q", 70)}},
+			world.J{"uuid": world.ActUUID(f, 1, 8), "type": "set_contact_name", "name": "Literally Long Name"},
+			world.J{"uuid": world.ActUUID(f, 1, 9), "type": "set_contact_field", "field": world.J{"key": "gender", "name": "Gender"}, "value": "literal field value"},
+			world.J{"uuid": world.ActUUID(f, 1, 10), "type": "set_run_result", "name": "Literal", "value": "literal result value", "category": "Cat"},
+			world.J{"uuid": world.ActUUID(f, 1, 11), "type": "send_msg", "text": strings.Repeat("é", 10050)},
 		},
 		"exits": []any{world.J{"uuid": world.ExitUUID(f, 1, 0)}},
 	}
